@@ -138,6 +138,17 @@ CLAIMED.update({
         design="6/C13"),
 })
 
+CLAIMED.update({
+    "C14": dict(
+        technique="Lean 4 proof (inductive invariant for the two limits over all accepted event sequences; enabledness of some event in every non-final state; strictly decreasing measure) + replay of the real event trace in the model + in-flight/active monitors and deadlock detection under adversarial schedules",
+        text=("C14_bound, C14_sequential, C14_progress, C14_measure, C14_bounded_length are proved for every nthreads >= 1, any number of "
+              "repositories and files (also above the window of 128) and every schedule; real runs under random/FIFO/LIFO/timer-"
+              "interleaved gate schedules are monitored at every transfer start/end, checked for deadlock, and their start/spawn/"
+              "acquire/finish/done event sequence must be accepted step by step by the Lean model and end in a final model state."),
+        note="asyncio atomicity between awaits and semaphore semantics are the model's step rules; no fairness assumed. Trusted: Lean kernel, model, harness (virtual-clock loop).",
+        design="6/C14"),
+})
+
 NOT_YET = {}
 
 
